@@ -120,8 +120,9 @@ CLAIMS = {
              "random hierarchies (single and multiple inheritance, decorated and undecorated subclasses, sized classes whose instances "
              "are falsy), construction styles, inference, clearing, abandoned / failing queries.",
         note=BASE_NOTE + "Reading: declare-and-evaluate atomically (observe_at); in addition a query DECLARED on the empty registry "
-             "and evaluated later must see every instance constructed by then (the library takes such a domain at evaluation time); "
-             "a query declared while part of its subtree already has instances is not claimed. Construction styles are identified in the model "
+             "or at any later point of the history, and evaluated later, must see every instance constructed by the time it is evaluated "
+             "(the library takes such a domain at evaluation time; before repair R37 it froze the list of classes at declaration). "
+             "Construction styles are identified in the model "
              "(they reach the same patched __new__); that is checked by correspondence.",
         tech="Lean 4 proof (invariant by induction over operation histories) + identity-level differential correspondence"),
     'C16': dict(
@@ -149,7 +150,7 @@ CLAIMS = {
              "it select exactly the (non-)members, in domain order. Correspondence: the single value as a sequence, membership, "
              "non-membership, contains spelling, combined with conditions on the outer variable, selected next to it; inner collections "
              "that are lists / tuples / scalars / empty, elements that are containers themselves, a parent domain without any parent, "
-             "a parent restricted by a sub-query.",
+             "a parent restricted by a sub-query or by an earlier conjunct (set level).",
         note=BASE_NOTE + "The implementation also rebinds the operand's variable to "
              "a list inside the output; using that variable afterwards is outside the property.",
         tech="Lean 4 proof (unfolding the evaluator on the concatenate node) + differential correspondence"),
@@ -173,7 +174,8 @@ CLAIMS = {
              "c13_positional (i-th positional after the domain binds the i-th field), c13_build_equal (T(From(d), ...) constructs "
              "exactly the tree of the explicit query: structural equality, hence same rows in the same order: c13_same_rows), "
              "c13_type_filter (domain = members that are instances of T, each once). Correspondence: mixed-type domains over a "
-             "generated hierarchy, keyword/positional fields, constants (falsy), earlier variables, nested predicate-form terms; "
+             "generated hierarchy - given as a list, tuple, generator, iterator or as a SINGLE OBJECT (R38, R39) -, keyword/positional "
+             "fields, constants (falsy), earlier variables, nested predicate-form terms; "
              "rows vs oracle and constructed tree vs model.",
         note=BASE_NOTE + "Nested predicate-form values (sub-queries as operands) are compared with the flattened explicit query "
              "by correspondence only. Parameter order comes from inspect.signature (trusted).",
